@@ -57,7 +57,37 @@ func FindRoots(p *Program, r *Report) *Roots {
 	// a plain function is a handler/setup only if it is used as a value somewhere
 	// (returned by a setup function, stored in a Plugin literal, ...): a helper that
 	// merely happens to have the handler signature is only ever called directly
+	asValue := usedAsValue(p)
+	for _, fn := range p.SrcFuncs() {
+		sg := sigNoRecv(fn.Signature)
+		if fn.Signature.Recv() == nil && fn.Parent() == nil && !asValue[fn] {
+			continue
+		}
+		switch {
+		case sameSig(sg, h4):
+			ro.Handlers4 = append(ro.Handlers4, fn)
+		case sameSig(sg, h6):
+			ro.Handlers6 = append(ro.Handlers6, fn)
+		case sameSig(sg, s4):
+			ro.Setups4 = append(ro.Setups4, fn)
+		case sameSig(sg, s6):
+			ro.Setups6 = append(ro.Setups6, fn)
+		}
+	}
+	return ro
+}
+
+var usedAsValueMemo = map[*Program]map[*ssa.Function]bool{}
+
+// usedAsValue: the first-party functions that occur as a value (returned,
+// stored in a Plugin literal, passed as an argument, ...), i.e. not merely as
+// the callee of a direct call.
+func usedAsValue(p *Program) map[*ssa.Function]bool {
+	if m, ok := usedAsValueMemo[p]; ok {
+		return m
+	}
 	asValue := map[*ssa.Function]bool{}
+	usedAsValueMemo[p] = asValue
 	var scan []*ssa.Function
 	for fn := range p.AllFunctions() {
 		if FirstParty(fn) && len(fn.Blocks) > 0 { // package initialisers (Plugin literals) included
@@ -94,23 +124,7 @@ func FindRoots(p *Program, r *Report) *Roots {
 			}
 		}
 	}
-	for _, fn := range p.SrcFuncs() {
-		sg := sigNoRecv(fn.Signature)
-		if fn.Signature.Recv() == nil && fn.Parent() == nil && !asValue[fn] {
-			continue
-		}
-		switch {
-		case sameSig(sg, h4):
-			ro.Handlers4 = append(ro.Handlers4, fn)
-		case sameSig(sg, h6):
-			ro.Handlers6 = append(ro.Handlers6, fn)
-		case sameSig(sg, s4):
-			ro.Setups4 = append(ro.Setups4, fn)
-		case sameSig(sg, s6):
-			ro.Setups6 = append(ro.Setups6, fn)
-		}
-	}
-	return ro
+	return asValue
 }
 
 func (ro *Roots) AllHandlers() []*ssa.Function {
